@@ -53,6 +53,7 @@ def cv1(prog, rr):
                          for n in walk_local(f.node))
         cname = c.name + ".sample"
         problems = []
+        offsets, markers = set(), set()
 
         class D(Domain):
             def initial_user(s):
@@ -69,6 +70,11 @@ def cv1(prog, rr):
                     if len(a) < 2 or a[1] != "self.bin_type":
                         problems.append((call, "hit reported with bin type '%s' instead of self.bin_type (ignore/illegal hits counted as regular or vice versa)"
                                          % (a[1] if len(a) > 1 else "")))
+                    # offset relative to the bin's base, as text
+                    if a and "self.bin_idx_base" in a[0]:
+                        off = a[0].replace("self.bin_idx_base", "", 1).strip()
+                        off = off[1:].strip() if off.startswith("+") else off
+                        offsets.add((off or "0").replace("(", "").replace(")", "").replace(" ", ""))
                     return [(FALL, st._replace(u=(mk, min(ev + 1, 2))), None)]
                 if nm == "sample" and child_loop and not (isinstance(call.func.value, ast.Name) and call.func.value.id == "self"):
                     if mk == "unset":
@@ -83,6 +89,8 @@ def cv1(prog, rr):
                     v = stmt.value
                     miss = isinstance(v, ast.UnaryOp) and isinstance(v.op, ast.USub) and isinstance(v.operand, ast.Constant) and v.operand.value == 1
                     miss = miss or (isinstance(v, ast.Constant) and v.value == -1)
+                    if not miss:
+                        markers.add(norm(v).replace("(", "").replace(")", "").replace(" ", ""))
                     return st._replace(u=("miss" if miss else "hit", ev))
                 return st
         outs = Interp(D(), func=f).run(f.node)
@@ -99,6 +107,24 @@ def cv1(prog, rr):
                     problems.append((f.node, "a path counts a hit (coverage_ev) but leaves the marker at -1 (crosses miss it)"))
                 if ev > 1:
                     problems.append((f.node, "a path calls coverage_ev more than once per sample"))
+        # a leaf bin's marker is the offset it reports relative to its base (what crosses add to bin_idx_base)
+        if not child_loop and offsets and markers:
+            from sa.ir import expand_locals
+            mk2 = {m for m in markers}
+            for m in list(markers):
+                # a local holding the offset: compare through its definition
+                for n2 in walk_local(f.node):
+                    if isinstance(n2, ast.Assign) and len(n2.targets) == 1 and norm(n2.targets[0]) == m:
+                        mk2.add(norm(n2.value).replace("(", "").replace(")", "").replace(" ", ""))
+            off2 = set(offsets)
+            for o in list(offsets):
+                for n2 in walk_local(f.node):
+                    if isinstance(n2, ast.Assign) and len(n2.targets) == 1 and norm(n2.targets[0]) == o:
+                        off2.add(norm(n2.value).replace("(", "").replace(")", "").replace(" ", ""))
+            off2 |= {"self.hit_bin_idx"} if any("self.hit_bin_idx" in o for o in offsets) else set()
+            if not (mk2 & off2) and not any("self.hit_bin_idx" in o for o in offsets):
+                problems.append((f.node, "the hit marker is set to %s but the hit is reported at offset %s from the bin's base: a cross adds the marker to the "
+                                         "base and credits another bin" % (sorted(markers), sorted(offsets))))
         seen = set()
         for node, msg in problems:
             if msg in seen:
